@@ -378,6 +378,8 @@ enum COp {
     IoRun,
     /// flush() (returns once everything appended so far is durable)
     Flush,
+    /// the IO task runs until idle while the store's next fsync fails once (transient IO error)
+    IoRunSyncFails,
 }
 
 struct CrashPair {
@@ -398,6 +400,11 @@ async fn c18_apply(cp: &mut CrashPair, op: &COp) -> Option<String> {
             r
         }
         COp::IoRun => {
+            quiesce().await;
+            None
+        }
+        COp::IoRunSyncFails => {
+            cp.pair.live.disk.fail_next_sync();
             quiesce().await;
             None
         }
@@ -486,7 +493,7 @@ async fn c18_build(history: &[COp]) -> (CrashPair, Option<String>) {
 fn run_c18(tier: &str, out: &mut std::fs::File) -> i32 {
     let t0 = Instant::now();
     AUTO_QUIESCE.store(false, std::sync::atomic::Ordering::SeqCst);
-    let depth = if tier == "thorough" { 7 } else { 5 };
+    let depth = if tier == "thorough" { 8 } else { 6 };
     let budget = if tier == "thorough" { 900 } else { 40 };
     let mut findings = Findings::new("C18");
     let mut visited: HashSet<(RefLog, u64, u64, Vec<(u64, u64, u8)>, Vec<(u64, u64, u8)>)> = HashSet::new();
@@ -530,6 +537,9 @@ fn run_c18(tier: &str, out: &mut std::fs::File) -> i32 {
                     .collect();
                 menu.push(COp::IoRun);
                 menu.push(COp::Flush);
+                if !hist.iter().any(|o| matches!(o, COp::IoRunSyncFails)) {
+                    menu.push(COp::IoRunSyncFails);
+                }
                 drop(cp);
                 for op in menu {
                     let (mut cp, _) = c18_build(hist).await;
